@@ -52,9 +52,9 @@ class Array(Function):
 
     def ast(self, tokens, stack, builder, check_n=lambda t: t.n_args):
         if self.has_start:
-            Function('ARRAY(').ast(tokens, stack, builder, check_n, False)
+            Function('ARRAY(').ast(tokens, stack, builder, check_n)
             stack[-1].attr['array'] = True
-            Function('ARRAY(').ast(tokens, stack, builder, check_n, False)
+            Function('ARRAY(').ast(tokens, stack, builder, check_n)
             stack[-1].attr['array'] = True
         else:
             token = Parenthesis(')')
